@@ -57,6 +57,7 @@ static bool unit(float x, bool& eps) {
     return false;
 }
 struct sp_hsv {
+    static const bool float_back = true;
     typedef gil::hsv32f_pixel_t pixel;
     static const char* name() { return "hsv"; }
     static int tol() { return 0; }
@@ -70,6 +71,7 @@ struct sp_hsv {
     template <class RGB> static const char* region(const RGB&, const pixel&) { return ""; }
 };
 struct sp_hsl {
+    static const bool float_back = true;
     typedef gil::hsl32f_pixel_t pixel;
     static const char* name() { return "hsl"; }
     static int tol() { return 0; }
@@ -83,6 +85,7 @@ struct sp_hsl {
     template <class RGB> static const char* region(const RGB&, const pixel&) { return ""; }
 };
 struct sp_xyz {
+    static const bool float_back = true;
     typedef gil::xyz32f_pixel_t pixel;
     static const char* name() { return "xyz"; }
     static int tol() { return 0; }
@@ -97,6 +100,7 @@ struct sp_xyz {
     template <class RGB> static const char* region(const RGB&, const pixel&) { return ""; }
 };
 struct sp_lab {
+    static const bool float_back = true;
     typedef gil::lab32f_pixel_t pixel;
     static const char* name() { return "lab"; }
     static int tol() { return 1; }
@@ -117,6 +121,7 @@ struct sp_lab {
     }
 };
 struct sp_y601 {
+    static const bool float_back = false;
     typedef gil::ycbcr_601_8_pixel_t pixel;
     static const char* name() { return "ycbcr601"; }
     static int tol() { return 3; }
@@ -124,6 +129,7 @@ struct sp_y601 {
     template <class RGB> static const char* region(const RGB&, const pixel&) { return ""; }
 };
 struct sp_y709 {
+    static const bool float_back = false;
     typedef gil::ycbcr_709_8_pixel_t pixel;
     static const char* name() { return "ycbcr709"; }
     static int tol() { return 3; }
@@ -140,6 +146,15 @@ template <class RGB> RGB make_rgb(int r, int g, int b) {
 }
 template <class P> std::string show3(const P& p) { char b[120]; snprintf(b, sizeof b, "(%.9g,%.9g,%.9g)", (double)p[0], (double)p[1], (double)p[2]); return b; }
 
+// recorded, not judged: how far the float32 result of the way back is from the 8-bit source (parts per billion).
+// The property speaks of rgb8 results only; this counter merely leaves a trace of a changed constant in the evidence.
+template <class Sp, class RGB> double float_back_dev(const typename Sp::pixel& m, int r, int g, int b, std::true_type) {
+    gil::rgb32f_pixel_t f;
+    gil::color_convert(m, f);
+    return std::max(std::fabs((float)f[0] - r / 255.0), std::max(std::fabs((float)f[1] - g / 255.0), std::fabs((float)f[2] - b / 255.0)));
+}
+template <class Sp, class RGB> double float_back_dev(const typename Sp::pixel&, int, int, int, std::false_type) { return 0; }
+
 // ---- round trip over the cube -----------------------------------------------------------------------
 template <class Sp, class RGB> void roundtrip(const char* cls_prefix, bool allow_full) {
     const std::string cls = vh::cat(cls_prefix, ".", Sp::name());
@@ -150,6 +165,8 @@ template <class Sp, class RGB> void roundtrip(const char* cls_prefix, bool allow
         vlog vl;
         const int T = Sp::tol();
         int worst = 0;
+        uint64_t hist[6] = {0, 0, 0, 0, 0, 0};
+        double fdev = 0;
         uint64_t n = cube::for_slab(k, full, salt, [&](int r, int g, int b) {
             RGB s = make_rgb<RGB>(r, g, b);
             typename Sp::pixel m;
@@ -162,6 +179,8 @@ template <class Sp, class RGB> void roundtrip(const char* cls_prefix, bool allow
             int dr = (int)gil::get_color(d, gil::red_t()), dg = (int)gil::get_color(d, gil::green_t()), db = (int)gil::get_color(d, gil::blue_t());
             int e = std::max(std::abs(dr - r), std::max(std::abs(dg - g), std::abs(db - b)));
             if (e > worst) worst = e;
+            ++hist[e > 4 ? 5 : e];
+            if (e <= T) { double fd = float_back_dev<Sp, RGB>(m, r, g, b, std::integral_constant<bool, Sp::float_back>()); if (fd > fdev) fdev = fd; }
             if (e > T) {
                 // gross: not a rounding matter but a wrapped / collapsed channel
                 const char* what = e >= 64 ? "roundtrip-gross." : "roundtrip.";
@@ -172,6 +191,9 @@ template <class Sp, class RGB> void roundtrip(const char* cls_prefix, bool allow
         vh::evals(n); vh::distinct(n);
         vh::obs(vh::cat(cls, ".", cube::sweep_name(full)));
         vh::count(vh::cat("max-roundtrip-error.", cls, ".slab", k), (uint64_t)worst);
+        static const char* hn[6] = {"0", "1", "2", "3", "4", "5-or-more"};
+        for (int i = 0; i < 6; ++i) if (hist[i]) vh::count(vh::cat("roundtrip-error-histogram.", cls, ".levels-", hn[i]), hist[i]);
+        if (Sp::float_back) vh::count(vh::cat("max-float-roundtrip-deviation-ppb.", cls, ".slab", k), (uint64_t)(fdev * 1e9));
         if (k == 0) vh::sample(vh::cat("rgb8 -> ", Sp::name(), " -> rgb8 for ", n, " pixels of slab 0 (", cube::sweep_name(full), "): intermediate range, |back - original| <= ", T));
     }
 }
